@@ -235,6 +235,59 @@ def main(tier, seed):
                         handle = db.measurement("m")
                         empty_handle = db.measurement("no-such-measurement")
                         db.count(q_none)
+        # an ill-typed tags / fields argument NEXT TO unset_* arguments that name the same key, in the same or in the other namespace (promoting a
+        # field to a tag: tags={k: v}, unset_fields=k): what the same call unsets elsewhere does not excuse the value
+        db = fresh(csv)
+        handle = db.measurement("m")
+        for slot, badmaps in (("tags", [{"sensor": 7}, {"sensor": 1.5}, {"a": b"x"}]), ("fields", [{"sensor": "x"}, {"sensor": True}, {"a": "1"}])):
+            for badmap in badmaps:
+                key = next(iter(badmap))
+                for un in ({"unset_fields": key}, {"unset_fields": [key]}, {"unset_tags": key}, {"unset_tags": [key]}, {"unset_tags": [key], "unset_fields": [key]},
+                           {"unset_fields": [key, "zz"]}):
+                    for kind in ("static", "callable"):
+                        arg = dict(badmap) if kind == "static" else (lambda old, _m=badmap: dict(_m))
+                        for name, call in ((f"db.update({slot}=<ill-typed {kind}>, {un})", lambda: db.update(q_all, **{slot: arg}, **un)),
+                                           (f"db.update_all({slot}=<ill-typed {kind}>, {un})", lambda: db.update_all(**{slot: arg}, **un)),
+                                           (f"measurement.update({slot}=<ill-typed {kind}>, {un})", lambda: handle.update(q_all, **{slot: arg}, **un))):
+                            before = [M.canon_point(x) for x in db.all(sorted=False)]
+                            r = raises(call)
+                            n_checks += 1
+                            bad = stored_ok(tf, db)
+                            after = [M.canon_point(x) for x in db.all(sorted=False)]
+                            if bad:
+                                note(name, badmap, "an ill-typed value was stored", {"stored": bad[:3]})
+                            elif r is None:
+                                note(name, badmap, "an ill-typed update argument was accepted")
+                            elif after != before:
+                                note(name, badmap, "a rejected update changed the stored contents")
+                            if bad or r is None or after != before:
+                                if csv:
+                                    db.close()
+                                db = fresh(csv)
+                                handle = db.measurement("m")
+        # the mapping a Point already holds, edited IN PLACE by the caller and assigned back (the assignment is what validates), then inserted
+        if not csv or True:
+            for slot, good, bads in (("tags", "x", [7, 1.5, b"x", True]), ("fields", 1.0, ["x", True, b"1", [1]])):
+                for badv in bads:
+                    for badkey in (False, True):
+                        d = {"a": good}
+                        pt = tf.Point(time=T0 + timedelta(seconds=30), measurement="m", **{slot: d})
+                        if badkey:
+                            d[5] = good
+                        else:
+                            d["a"] = badv
+                        r = raises(lambda: setattr(pt, slot, d))
+                        n_checks += 1
+                        if r is None:
+                            note(f"point.{slot} = <the mapping it already holds, edited in place>", d, "an ill-typed mapping was accepted by the attribute assignment")
+                            raises(lambda: db.insert(pt))
+                            bad = stored_ok(tf, db)
+                            if bad:
+                                note("insert", d, "an ill-typed value was stored", {"stored": bad[:3]})
+                            if csv:
+                                db.close()
+                            db = fresh(csv)
+                            handle = db.measurement("m")
         # callables that EDIT the mapping they are handed and return it: an ill-typed edit is rejected and must leave no trace (the mapping is a
         # private copy); mappings in which an ill-typed value is ==-equal to a well-typed one next to it (True == 1 == 1.0)
         def edit(key, val):
